@@ -95,6 +95,18 @@ def long_double_slices(chk, w, names, only=None):
                 res_act = tm.subst([res], dict((k_, b_) for k_, (a_, b_) in ex.dimg.items()))[0]
                 res = tm.subst([res], dict((k_, a_) for k_, (a_, b_) in ex.dimg.items()))[0]
             rp_ = precision_replay(chk, name, api, sg, res, args, v, res_act)
+            # (0) a bounded root finder: the iteration cap passed at the call site must let the bracket shrink below the tolerance passed with it
+            #     in THIS scalar type (bisection: width/2^cap < tolerance); otherwise the long double evaluator gives up and returns garbage
+            if isinstance(res, T) and meth in ('eval_q_rho', 'eval_q_rho_u'):      # (sod_1d::eval_q_t(x) calls rtbis with a cap of 1 on purpose: the library's own test of the give-up path)
+                short = []
+                for n_ in tm.topo([res]):
+                    if n_.op == 'uf' and n_.p == 'rtbis' and len(n_.a) >= 4 and all(tm.isc(a_) for a_ in n_.a[:4]):
+                        x1_, x2_, acc_, cap_ = [Fraction(a_.p) for a_ in n_.a[:4]]
+                        if acc_ > 0 and abs(x2_ - x1_) / Fraction(2) ** int(cap_) >= acc_:
+                            short.append((float(x1_), float(x2_), float(acc_), int(cap_)))
+                if any(n_.op == 'uf' and n_.p == 'rtbis' for n_ in tm.topo([res])):
+                    chk.paths_clean('%s:bisection-cap-reaches-the-tolerance-of-the-scalar-type' % tag, [tm.TRUE] if short else [], key='precision:%s:%s:bisection-cap' % (name, meth), family='constants',
+                                    sample=dict(obligation=tag, bracket_tolerance_cap=short[:2]), replay=sod_precision_replay(chk, api) if name == 'sod_1d' else rp_)
             # (1) constants
             chk.paths_clean('%s:constants-are-long-double-roundings-of-simple-rationals' % tag, [tm.TRUE] if images else [], key='precision:%s:%s:constants' % (name, meth), family='constants',
                             sample=dict(obligation=tag, double_image_constants=[(c[0][-40:], float(c[2]), str(c[4])) for c in images[:4]]), replay=rp_)
